@@ -1432,6 +1432,17 @@ func c16Worker(c *Ctx) {
 	if v, err := strconv.Atoi(c.Drv.Ask("fetch.chunk")); err == nil && v > 0 {
 		k.chunk = v
 		c.Res.Hit(fmt.Sprintf("extracted-chunk-size-%d", v))
+	} else {
+		c.Res.Hit("extracted-chunk-size-unknown")
+		c.Res.Notes = append(c.Res.Notes, "chunk size not recognised by the translator: the chunking tie (barrier between chunks, fetches in flight ≤ chunk size) is not checked in this run; order, weights and fetch counts still are")
+	}
+	if f := strings.Fields(c.Drv.Ask("fetch.facts")); len(f) == 3 {
+		c.Res.Hit("fact-chunk-loop-" + f[0])
+		c.Res.Hit("fact-barrier-" + f[1])
+		c.Res.Hit("fact-collect-" + f[2])
+		if f[0] == "unknown" || f[1] == "unknown" || f[2] == "unknown" {
+			c.Res.Notes = append(c.Res.Notes, fmt.Sprintf("translator did not recognise: chunk loop %s, barrier %s, collection %s — these facts rest on the dynamic checks of this run only", f[0], f[1], f[2]))
+		}
 	}
 	// the failure kinds must really be failures for the real parser, the ok kinds really valid
 	if _, err := profile.ParseData(c16Garbage); err == nil {
